@@ -54,3 +54,8 @@ CHECKS["C07"] = dict(engine="faultspace", level="fault_enumeration", ref="DESIGN
     text=_F + "Every base case and every size / value / cut / suffix / byte-substitution fault on it is decoded once in strict and once in warn mode by the real decoder. Relational oracle: events before the first warning == events before the raise (plus the offending event for a value problem), first warning wraps the same class with the same details, strict accepts <=> warn mode emits no warning (then identical events).",
     note="No reference model is involved. Strict-mode internal errors (F8/F9) are skipped here and judged by C06.",
     technique="exhaustive fault enumeration with a relational (two-run) oracle on the real code")
+ENGINES[-1]["serves_properties"] += ["C08"]
+CHECKS["C08"] = dict(engine="faultspace", level="fault_enumeration", ref="DESIGN.md 6 C08, 4.3, 4.4",
+    text=_F + "Every base case and every size / value / cut / suffix / byte-substitution fault on it (thorough: ordered pairs of size faults and of value faults) is decoded in warn mode by the real decoder. Oracles: no exception escapes except ValueConstraintViolatedError for an unknown command code / selector without member; model-free tiling of the input by the observed events (field bytes are the next input bytes, after Exceeded/Subceeded the cursor is the end the violated size field declares, surplus listed exactly, nothing left over); value-only inputs equal the lenient reference interpretation with one warning directly after each offending event.",
+    note="After a Depleted warning up to 7 bytes of the incomplete last field are tolerated as unaccounted. Known findings F8w, F8bw, F9w, F19 (narrow fingerprints: exception class + raising function).",
+    technique="exhaustive fault enumeration (single and double faults) with a model-free tiling invariant and a lenient reference model")
